@@ -306,7 +306,7 @@ def prover_pieces(extra_hoist=()):
 # the `prove` entry point: prove_with_rng by contract (proved in unit prove)
 UNITS["prove_wrapper"] = {
     "prelude": PRELUDE_ALL,
-    "contracts": ["ctors.vc", "gens.vc", "prove_safety.vc", "prove_structure.vc", "prove_wrapper.vc"],
+    "contracts": ["ctors.vc", "gens.vc", "prove_safety.vc", "prove_structure.vc", "prove_transcript.vc", "prove_wrapper.vc"],
     "pieces": types() + RPT_ITEMS + [
         text("spec/tproto_trait.rs"), text("spec/sproto_trait.rs"), text("spec/spec_transcript.rs"), text("spec/spec_mask.rs"), text("spec/spec_wf.rs"),
         text("spec/spec_verify.rs"), text("spec/spec_prove.rs"),
